@@ -9,7 +9,7 @@ for n in $names; do
 import json,re,sys
 m=json.load(open('/verif/seeded/%s/meta.json'%sys.argv[1]))
 h=m['caught_by']['harness']
-func=h.split()[0]
+func=h.split()[0].strip(',;:')
 c=re.search(r'\(checks? (C\d\d)',h)
 check=c.group(1) if c else m['property']
 print(check,func)
